@@ -10,14 +10,15 @@ import OpcuaModel.Gen.RefTypes
 
   `SpecMatch` is the property's filter (direction, reference type equal or —
   only when subtypes are requested — a transitive subtype, class of the target
-  node in the mask).  The unchanged code satisfies it when subtypes are
-  requested, when no reference type is given, or when the requested type has no
-  subtypes (`C33_filter`).  Otherwise it is wrong in two ways, both recorded as
-  findings with machine-checked counterexamples on the generated hierarchy:
-  subtypes still match, and when HasSubtype itself is among the subtypes
-  (References, HierarchicalReferences, HasChild) the deletion loop runs out of
-  the slice and panics.  A third finding: the class mask is applied to the class
-  recorded in the reference, which can differ from the target node's class.
+  node in the mask).  After the repair of `suitableRefType` (the subtypes are no
+  longer consulted at all when IncludeSubtypes is false; the deletion loop that
+  ran out of the slice is gone) the code satisfies it for EVERY request
+  (`C33_filter`), under two hypotheses about the address space: the HasSubtype
+  forest is acyclic (proved for the regenerated standard hierarchy) and every
+  reference carries the class of its target node.  The second one is violated by
+  the unchanged code in places — the class mask is applied to the class recorded
+  in the reference — which stays a recorded finding
+  (`C33_finding_stale_class`).
 -/
 namespace Opcua.Props.C33
 open Opcua.Browse
@@ -53,78 +54,79 @@ theorem C33_std_fuel : ∀ t, lookupRank Gen.refTypeRank t < Gen.refTypeFuel := 
 theorem C33_ids : hasSubtype = Gen.hasSubtypeId ∧ hasTypeDefinition = Gen.hasTypeDefinitionId := by decide
 
 /-- MAIN: on an acyclic forest, for a node whose references are well formed and
-    carry the class of their target, and a request inside the guard (subtypes
-    requested, or no reference type given, or a type without subtypes): Browse
-    does not panic and returns, up to order, exactly the references the
-    specification selects — no more, no fewer, with multiplicity -/
+    carry the class of their target, and EVERY request (any direction value,
+    reference type, subtype flag and class mask): Browse returns, up to order,
+    exactly the references the specification selects — no more, no fewer, with
+    multiplicity -/
 theorem C33_filter (g : Graph) (rank : Nat → Nat) (hr : RankOK g rank) (fuel : Nat) (d : Desc)
-    (hf : rank d.refType < fuel) (hg : Guard g fuel d) (refs : List Ref)
+    (hf : rank d.refType < fuel) (refs : List Ref)
     (hwf : ∀ r ∈ refs, r.nilField = false ∧ r.storedClass = r.targetClass) :
-    ∃ l, browse g fuel d refs = .ok l ∧ l.Perm (refs.filter (specMatchB g fuel d)) ∧
+    (browse g fuel d refs).Perm (refs.filter (specMatchB g fuel d)) ∧
       (∀ r, specMatchB g fuel d r = true ↔ SpecMatch g d r) ∧
-      (∀ r, r ∈ l ↔ r ∈ refs ∧ SpecMatch g d r) := by
-  obtain ⟨l, hl, hp⟩ := browseLoop_guard g fuel d hg refs [] hwf
+      (∀ r, r ∈ browse g fuel d refs ↔ r ∈ refs ∧ SpecMatch g d r) := by
+  have hp := browseLoop_perm g fuel d refs [] hwf
   have hiff := specMatchB_iff g rank hr fuel d hf
-  refine ⟨l, hl, by simpa using hp, hiff, ?_⟩
+  refine ⟨by simpa [browse] using hp, hiff, ?_⟩
   intro r
+  unfold browse
   rw [hp.mem_iff]
   simp [List.mem_filter, hiff r]
 
 /-- the same for the regenerated standard hierarchy, with the driver's fuel -/
-theorem C33_filter_std (d : Desc) (hg : Guard Gen.refTypeSubs Gen.refTypeFuel d) (refs : List Ref)
+theorem C33_filter_std (d : Desc) (refs : List Ref)
     (hwf : ∀ r ∈ refs, r.nilField = false ∧ r.storedClass = r.targetClass) :
-    ∃ l, browse Gen.refTypeSubs Gen.refTypeFuel d refs = .ok l ∧
-      (∀ r, r ∈ l ↔ r ∈ refs ∧ SpecMatch Gen.refTypeSubs d r) := by
-  obtain ⟨l, h1, _, _, h4⟩ := C33_filter Gen.refTypeSubs _ C33_std_acyclic Gen.refTypeFuel d
-    (C33_std_fuel d.refType) hg refs hwf
-  exact ⟨l, h1, h4⟩
+    ∀ r, r ∈ browse Gen.refTypeSubs Gen.refTypeFuel d refs ↔ r ∈ refs ∧ SpecMatch Gen.refTypeSubs d r :=
+  (C33_filter Gen.refTypeSubs _ C33_std_acyclic Gen.refTypeFuel d (C33_std_fuel d.refType) refs hwf).2.2
 
-/-- exact characterisation of the reference type test outside the guard: it is
-    right iff it does not panic and the offered type is not a proper subtype -/
-theorem C33_reftype_partial (g : Graph) (fuel t1 t2 : Nat) (h0 : t1 ≠ 0) (hne : t1 ≠ t2) :
-    suitableRefType g fuel t1 t2 false =
-      if (getSubRefs g fuel t1).contains hasSubtype ∧ (getSubRefs g fuel t1).idxOf hasSubtype > 0 then .panic
-      else if (getSubRefs g fuel t1).contains t2 then .yes else .no := by
-  simp [suitableRefType, h0, hne]
+/-- the reference type test alone is the specification's clause, for every pair of
+    types and both values of the flag (no guard any more) -/
+theorem C33_reftype (g : Graph) (rank : Nat → Nat) (hr : RankOK g rank) (fuel t1 t2 : Nat) (sub : Bool)
+    (hf : rank t1 < fuel) :
+    suitableRefType g fuel t1 t2 sub = true ↔ (t1 = 0 ∨ t2 = t1 ∨ (sub = true ∧ Sub g t2 t1)) := by
+  have h := suitableRefType_eq g fuel ⟨0, t1, sub, 0⟩ t2
+  simp only at h
+  rw [h]
+  simp only [typeOkB, Bool.or_eq_true, Bool.and_eq_true, decide_eq_true_eq, List.contains_iff_mem,
+    mem_getSubRefs g rank hr fuel t1 t2 hf, or_assoc]
 
-/-- FINDING C33.subtypes-match-when-excluded — Aggregates (44) with
-    IncludeSubtypes=false still matches HasComponent (47) and HasProperty (46);
-    NonHierarchicalReferences (32) still matches HasTypeDefinition (40) -/
-theorem C33_finding_subtypes_match_when_excluded :
-    suitableRefType Gen.refTypeSubs Gen.refTypeFuel 44 47 false = .yes ∧
-    suitableRefType Gen.refTypeSubs Gen.refTypeFuel 44 46 false = .yes ∧
-    suitableRefType Gen.refTypeSubs Gen.refTypeFuel 32 40 false = .yes ∧
-    ¬ SpecMatch Gen.refTypeSubs ⟨0, 44, false, 0⟩ ⟨47, true, 1, 1, 1, false⟩ := by
-  refine ⟨by decide +kernel, by decide +kernel, by decide +kernel, ?_⟩
-  simp [SpecMatch]
+/-- REPAIRED (was C33.subtypes-match-when-excluded): with IncludeSubtypes=false a
+    proper subtype no longer matches — Aggregates (44) vs HasComponent (47) /
+    HasProperty (46), NonHierarchicalReferences (32) vs HasTypeDefinition (40) —
+    while the type itself and, with the flag, the subtypes still do -/
+theorem C33_repaired_subtypes_excluded :
+    suitableRefType Gen.refTypeSubs Gen.refTypeFuel 44 47 false = false ∧
+    suitableRefType Gen.refTypeSubs Gen.refTypeFuel 44 46 false = false ∧
+    suitableRefType Gen.refTypeSubs Gen.refTypeFuel 32 40 false = false ∧
+    suitableRefType Gen.refTypeSubs Gen.refTypeFuel 44 44 false = true ∧
+    suitableRefType Gen.refTypeSubs Gen.refTypeFuel 44 47 true = true := by
+  decide +kernel
 
-/-- FINDING C33.browse-panics-hassubtype-deletion — with IncludeSubtypes=false and
-    References (31), HierarchicalReferences (33) or HasChild (34) any reference
-    of another type in the requested direction makes `suitableRefType` panic
-    (`slices.Delete` out of range): e.g. the Organizes (35) references of the
-    Objects folder -/
-theorem C33_finding_browse_panics :
-    suitableRefType Gen.refTypeSubs Gen.refTypeFuel 33 35 false = .panic ∧
-    suitableRefType Gen.refTypeSubs Gen.refTypeFuel 31 35 false = .panic ∧
-    suitableRefType Gen.refTypeSubs Gen.refTypeFuel 34 47 false = .panic ∧
+/-- REPAIRED (was C33.browse-panics-hassubtype-deletion): References (31),
+    HierarchicalReferences (33), HasChild (34) with IncludeSubtypes=false simply
+    select nothing but the type itself; the Objects folder example returns the
+    empty list -/
+theorem C33_repaired_no_panic :
+    suitableRefType Gen.refTypeSubs Gen.refTypeFuel 33 35 false = false ∧
+    suitableRefType Gen.refTypeSubs Gen.refTypeFuel 31 35 false = false ∧
+    suitableRefType Gen.refTypeSubs Gen.refTypeFuel 34 47 false = false ∧
     browse Gen.refTypeSubs Gen.refTypeFuel ⟨0, 33, false, 0⟩
-      [⟨40, true, 61, 8, 8, false⟩, ⟨35, true, 2253, 1, 1, false⟩] = .panic := by
-  refine ⟨by decide +kernel, by decide +kernel, by decide +kernel, by decide +kernel⟩
+      [⟨40, true, 61, 8, 8, false⟩, ⟨35, true, 2253, 1, 1, false⟩] = [] := by
+  decide +kernel
 
 /-- FINDING C33.nodeclass-mask-uses-stale-class — the mask is applied to the class
     stored in the reference: a reference recorded as Variable (2) whose target
     node now says Object (1) is dropped by mask=Object and returned by mask=Variable -/
 theorem C33_finding_stale_class :
     let r : Ref := ⟨47, true, 2255, 2, 1, false⟩
-    browse [] 1 ⟨0, 0, true, 1⟩ [r] = .ok [] ∧ SpecMatch [] ⟨0, 0, true, 1⟩ r ∧
-    browse [] 1 ⟨0, 0, true, 2⟩ [r] = .ok [r] ∧ ¬ SpecMatch [] ⟨0, 0, true, 2⟩ r := by
+    browse [] 1 ⟨0, 0, true, 1⟩ [r] = [] ∧ SpecMatch [] ⟨0, 0, true, 1⟩ r ∧
+    browse [] 1 ⟨0, 0, true, 2⟩ [r] = [r] ∧ ¬ SpecMatch [] ⟨0, 0, true, 2⟩ r := by
   refine ⟨by decide, ?_, by decide, ?_⟩ <;> simp [SpecMatch, suitableDirection]
 
 /-- non-vacuity: with subtypes, HierarchicalReferences selects Organizes and
-    HasComponent but not HasTypeDefinition; the guard holds for leaf types -/
-example : suitableRefType Gen.refTypeSubs Gen.refTypeFuel 33 35 true = .yes ∧
-    suitableRefType Gen.refTypeSubs Gen.refTypeFuel 33 47 true = .yes ∧
-    suitableRefType Gen.refTypeSubs Gen.refTypeFuel 33 40 true = .no ∧
+    HasComponent but not HasTypeDefinition -/
+example : suitableRefType Gen.refTypeSubs Gen.refTypeFuel 33 35 true = true ∧
+    suitableRefType Gen.refTypeSubs Gen.refTypeFuel 33 47 true = true ∧
+    suitableRefType Gen.refTypeSubs Gen.refTypeFuel 33 40 true = false ∧
     getSubRefs Gen.refTypeSubs Gen.refTypeFuel 46 = [] := by decide +kernel
 
 end Opcua.Props.C33
